@@ -16,12 +16,17 @@ def classify_prefix(cdc, data, k, spec):
     s = streams.Growing(); s.arrive(data[:k]); s.close_input()
     ev, o = streams.drive(I.DEC[cdc], s, [('poll',)], spec=spec)
     out['closed'] = ('objects:' if any(not isinstance(e, str) for e in ev) else '') + (o if isinstance(o, str) else o[1])
+    # the same two on a BytesIO-derived non-blocking stream (the library treats BytesIO objects specially)
+    ev, o = streams.drive_feed(I.DEC[cdc], data[:k], [k], spec=spec, close=False, polls=(0,))
+    out['open-bytesio'] = ('objects' if any(not isinstance(e, str) for e in ev) else 'under') if o == 'exhausted' else (o if o == 'stop' else o[1])
+    ev, o = streams.drive_feed(I.DEC[cdc], data[:k], [k], spec=spec, close=True)
+    out['closed-bytesio'] = ('objects:' if any(not isinstance(e, str) for e in ev) else '') + (o if isinstance(o, str) else o[1])
     return out
 
 
 def run(ctx):
     ctx.rule = ('every proper prefix e[:k] of valid BER (definite/indefinite/chunked), CER and DER encodings, presented as bytes (one-shot), '
-                'as an open non-blocking stream and as a stream closed after byte k; with and without guiding type; non-trivial = k > 0')
+                'as an open non-blocking stream and as a stream closed after byte k, each both as a plain stream object and as an io.BytesIO subclass; with and without guiding type; non-trivial = k > 0')
     search_only = getattr(ctx, 'search_only', False)
     exprs, meta = [], []
     sts = [s for s in gen_streams(ctx, ctx.n(60, 600)) if len(s[2]) == 1]
@@ -49,6 +54,10 @@ def run(ctx):
                     ctx.prop_fail('streaming decoder on an open stream holding a proper prefix: %s instead of underrun' % r['open'], m)
                 if r['closed'] != 'EEndOfStream':
                     ctx.prop_fail('streaming decoder on a stream closed at the cut: %s instead of the end-of-stream error' % r['closed'], m)
+                if k > 0 and r['open-bytesio'] != 'under':
+                    ctx.prop_fail('streaming decoder on an open BytesIO-derived stream holding a proper prefix: %s instead of underrun' % r['open-bytesio'], m)
+                if k > 0 and r['closed-bytesio'] != 'EEndOfStream':
+                    ctx.prop_fail('streaming decoder on a BytesIO-derived stream closed at the cut: %s instead of the end-of-stream error' % r['closed-bytesio'], m)
                 if with_spec and not search_only:
                     fuel = 2 * len(data) + 40
                     exprs.append('match decode_with %s %s (Some %s) %s with Err EUnmodelled => 2 | Err e => if err_eqb e %s then 0 else 1 | Ok _ => 1 end' % (
